@@ -47,6 +47,8 @@ def main():
         for fn, text in out.items():
             ch = pylite.write_if_changed(os.path.join(VERIF, "coq", "gen", fn), text)
             print("gen/%s %s" % (fn, "rewritten" if ch else "unchanged"))
+    for l in pylite.NORMALIZE_LOG:
+        print("normalize:", l)
     sys.exit(rc)
 
 
